@@ -482,3 +482,48 @@ Definition check_listing (c : listing_case) : bool :=
   jv_eqb (JList (map JStr mk)) (JList (map JStr keys)) &&
   jv_eqb (JList (map JStr (dir_folders root incd incf l))) (JList (map JStr tlf)) &&
   forallb (fun x => let '(r, o, o2) := x in jv_eqb (observe cx r) o && jv_eqb (observe2 cx r) o2) refs.
+
+(* ================================================================ the life cycle of ONE Manifest object
+   (appended: Manifest.__init__ followed by Manifest.update / Manifest.clear; nothing above is changed)
+
+   A Manifest keeps a dict {target folder: source}.  Manifest(d) copies the keys of d; Manifest.update(other) -- other a
+   dict or another Manifest -- is dict.update: a key that is already there keeps its position, a new key is appended;
+   Manifest.clear() empties the dict.  top_level_folders is a property of the CURRENT dict: it is recomputed from
+   the keys the manifest holds at the time it is read, whatever the object held when it was created. *)
+Inductive mop : Type :=
+  | MUpdate (keys : list string)
+  | MClear.
+
+(* the keys of a Python dict in insertion order *)
+Definition dict_add (ks : list string) (k : string) : list string := if in_strs k ks then ks else (ks ++ [k])%list.
+Definition dict_update (ks new : list string) : list string := fold_left dict_add new ks.
+
+Definition mstep (ks : list string) (op : mop) : list string :=
+  match op with MUpdate new => dict_update ks new | MClear => [] end.
+
+(* the keys of Manifest(init) after the operations; construction is the first update of an empty dict *)
+Definition mrun (init : list string) (ops : list mop) : list string := fold_left mstep ops (dict_update [] init).
+
+(* Manifest(init) ... .top_level_folders read after the operations *)
+Definition session_folders (init : list string) (ops : list mop) : list string := top_level_folders (mrun init ops).
+
+(* the keys after construction and after every operation *)
+Fixpoint mtrace (ks : list string) (ops : list mop) : list (list string) :=
+  ks :: match ops with [] => [] | op :: r => mtrace (mstep ks op) r end.
+
+(* one session of the correspondence run:
+   (keys given to Manifest(...), the operations, [(manifest keys, top_level_folders)] of the implementation after the
+    construction and after every operation, owner stage, known components, application dependencies,
+    [(reference string, observation, second observation)] made with the top_level_folders read at the END) *)
+Definition session_case : Type :=
+  list string * list mop * list (list string * list string) * N * list (N * list string) * list string
+  * list (string * jv * jv).
+
+Definition jstrs (l : list string) : jv := JList (map JStr l).
+
+Definition check_session (c : session_case) : bool :=
+  let '(init, ops, steps, st, known, ad, refs) := c in
+  let cx := {| c_stage := st; c_known := known; c_appdeps := ad; c_keys := mrun init ops |} in
+  jv_eqb (JList (map (fun ks => JList [jstrs ks; jstrs (top_level_folders ks)]) (mtrace (dict_update [] init) ops)))
+         (JList (map (fun s => JList [jstrs (fst s); jstrs (snd s)]) steps)) &&
+  forallb (fun x => let '(r, o, o2) := x in jv_eqb (observe cx r) o && jv_eqb (observe2 cx r) o2) refs.
